@@ -180,6 +180,15 @@ class Check(object):
         self.notes = []
         self.deadline = None
 
+    def clean_replays(self):
+        ''' remove stale replay files of this property/tier (called before a normal run, not before --replay) '''
+        import glob
+        for old in glob.glob(os.path.join(VERIF, 'replays', '%s_%s_*.json' % (self.prop, self.tier))):
+            try:
+                os.unlink(old)
+            except OSError:
+                pass
+
     # ----- time -----
     def elapsed(self):
         return time.time() - self.t0
